@@ -1779,6 +1779,8 @@ enum FsFault {
     OutParentMissing(usize),
     /// a directory stands where this requested output file should be created
     OutIsDir(String),
+    /// the requested output file can be opened but every write to it fails (a symbolic link to /dev/full)
+    OutDevFull(String),
 }
 
 impl FsFault {
@@ -1789,12 +1791,13 @@ impl FsFault {
             FsFault::InputIsDir(_) => "input-is-directory",
             FsFault::OutParentMissing(_) => "output-parent-missing",
             FsFault::OutIsDir(_) => "output-is-directory",
+            FsFault::OutDevFull(_) => "output-device-full",
         }
     }
     fn to_json(&self) -> Value {
         match self {
             FsFault::None => Value::Null,
-            FsFault::InputMissing(n) | FsFault::InputIsDir(n) | FsFault::OutIsDir(n) => json!({"fs_fault": self.kind(), "path": n}),
+            FsFault::InputMissing(n) | FsFault::InputIsDir(n) | FsFault::OutIsDir(n) | FsFault::OutDevFull(n) => json!({"fs_fault": self.kind(), "path": n}),
             FsFault::OutParentMissing(i) => json!({"fs_fault": self.kind(), "arg_index": i}),
         }
     }
@@ -1804,6 +1807,7 @@ impl FsFault {
             Some("input-missing") => FsFault::InputMissing(p),
             Some("input-is-directory") => FsFault::InputIsDir(p),
             Some("output-is-directory") => FsFault::OutIsDir(p),
+            Some("output-device-full") => FsFault::OutDevFull(p),
             Some("output-parent-missing") => FsFault::OutParentMissing(v["arg_index"].as_u64().unwrap_or(0) as usize),
             _ => FsFault::None,
         }
@@ -1895,10 +1899,10 @@ fn effective(job: &Job, ff: &FsFault) -> (Vec<String>, Vec<String>, Vec<String>)
     }
     let req = requested_of(&args);
     let allowed = match ff {
-        FsFault::OutParentMissing(_) | FsFault::OutIsDir(_) => {
+        FsFault::OutParentMissing(_) | FsFault::OutIsDir(_) | FsFault::OutDevFull(_) => {
             // outputs of the groups before the unwritable one
             let bad = match ff {
-                FsFault::OutIsDir(p) => p.clone(),
+                FsFault::OutIsDir(p) | FsFault::OutDevFull(p) => p.clone(),
                 _ => req.iter().find(|r| r.starts_with("no_such_dir/")).cloned().unwrap_or_default(),
             };
             let pos = req.iter().position(|r| *r == bad).unwrap_or(0);
@@ -1933,6 +1937,13 @@ fn run_process(bin: &str, dir: &str, job: &Job, ff: &FsFault, timeout_s: f64) ->
     }
     if let FsFault::OutIsDir(p) = ff {
         let _ = std::fs::create_dir_all(format!("{}/{}", work, p));
+    }
+    if let FsFault::OutDevFull(p) = ff {
+        let target = format!("{}/{}", work, p);
+        if let Some(parent) = std::path::Path::new(&target).parent() {
+            let _ = std::fs::create_dir_all(parent);
+        }
+        let _ = std::os::unix::fs::symlink("/dev/full", &target);
     }
     let (args, req, _) = effective(job, ff);
     let mut before = BTreeSet::new();
@@ -2058,7 +2069,7 @@ fn mock_fault_of(ff: &FsFault, job: &Job) -> Option<Fault> {
         FsFault::None => Some(Fault::None),
         FsFault::InputMissing(n) => Some(Fault::Missing(n.clone())),
         FsFault::InputIsDir(n) => Some(Fault::Unreadable(n.clone())),
-        FsFault::OutIsDir(p) => requested_of(&job.args).iter().position(|r| r == p).map(|k| Fault::Write(k + 1)),
+        FsFault::OutIsDir(p) | FsFault::OutDevFull(p) => requested_of(&job.args).iter().position(|r| r == p).map(|k| Fault::Write(k + 1)),
         FsFault::OutParentMissing(_) => None,
     }
 }
@@ -2117,7 +2128,10 @@ fn fs_fault_cases(dj: &DJob) -> Vec<FsFault> {
         }
     }
     for r in requested_of(args) {
-        v.push(FsFault::OutIsDir(r));
+        v.push(FsFault::OutIsDir(r.clone()));
+        if std::path::Path::new("/dev/full").exists() {
+            v.push(FsFault::OutDevFull(r));
+        }
     }
     v
 }
